@@ -1475,14 +1475,20 @@ void TopologyKernel::swap_cell_indices(CellHandle _h1, CellHandle _h2)
     // correct pointers to those cells
     if (has_face_bottom_up_incidences())
     {
+        // Decide first, then write: the two cells may list the same halfface
+        // (e.g. a deleted cell and the cell that replaced it), which must be
+        // relabeled once, not back and forth.
+        std::vector<HalfFaceHandle> to_h2, to_h1;
         for (const auto hfh: cells_[_h1].halffaces()) {
             if (incident_cell_per_hf_[hfh] == _h1)
-                incident_cell_per_hf_[hfh] = _h2;
+                to_h2.push_back(hfh);
         }
         for (const auto hfh: cells_[_h2].halffaces()) {
             if (incident_cell_per_hf_[hfh] == _h2)
-                incident_cell_per_hf_[hfh] = _h1;
+                to_h1.push_back(hfh);
         }
+        for (const auto hfh: to_h2) incident_cell_per_hf_[hfh] = _h2;
+        for (const auto hfh: to_h1) incident_cell_per_hf_[hfh] = _h1;
     }
 
     // swap vector entries
